@@ -1,0 +1,18 @@
+//go:build verif
+
+// Verification hook for properties C02/C03 (add-only, compiled only with -tags verif).
+package the
+
+import (
+	"github.com/AliceO2Group/Control/common/event"
+	"github.com/AliceO2Group/Control/common/event/topic"
+)
+
+// VerifC02SetEventWriter installs w as the event writer of the given topic, so that a harness
+// can observe the events the core publishes (environment states, run events) in-process.
+// Without this the writers are DummyWriters (Kafka disabled) and the events are dropped.
+func VerifC02SetEventWriter(t topic.Topic, w event.Writer) {
+	mu.Lock()
+	defer mu.Unlock()
+	writers[t] = w
+}
